@@ -273,6 +273,13 @@ func main() {
 				v = res.Viol.Kind + "@" + res.Viol.Site
 			}
 			fmt.Fprintf(out, "DIGEST %d sig=%x steps=%d switches=%d tape=%d viol=%s\n", idx, res.Sig, rc.stats["steps"], rc.stats["switches"], core.T.Pos, v)
+			if os.Getenv("VERIF_SITE_HIST") != "" {
+				for i := range core.S.SiteHist {
+					if n := core.S.SiteHist[i]; n != 0 {
+						fmt.Fprintf(out, "SITE %d %d\n", i, n)
+					}
+				}
+			}
 			if res.Fatal {
 				out.Flush()
 				os.Exit(3)
